@@ -64,7 +64,9 @@ def run_one(sid, tier, inplace, extra_props):
                  "tail": out[-1500:]}
             # replays: must fail on the patched tree, pass on /repo
             reps = []
-            for _pid, path, tail in viol[:6]:
+            for _pid, path, tail in viol[:60]:
+                if len(reps) >= 6 and any(x.get('on_patched_rc', 0) != 0 for x in reps):
+                    break  # at least six replays tried and one of them fails on the changed tree
                 if "no-failing-input-found" in tail:
                     reps.append({"path": path, "kind": "no-failing-input-found"})
                     continue
